@@ -727,4 +727,30 @@ Theorem C16_nushell_exactly_one_block_per_command : forall c d,
   (forall n, In n (flat_map NushellProofs.nodes (c_subs c)) <-> desc c n).
 Proof. exact NushellProofs.nu_pieces_blocks. Qed.
 Print Assumptions C16_nushell_exactly_one_block_per_command.
+(** [Command::build] makes the bin names [linked] (every subcommand's bin name = its parent's, a blank, its own name)
+    whenever no subcommand of the user's tree carries a bin name of its own ([BuildLinked.nb]: a Command has none before
+    it is built) and the bin name given to [generate] is not empty.  Closes the round-1 remark "build => linked: not
+    proved": [linked] is the hypothesis of [C16_bash_table], [C16_bash_complete], [C16_nushell_covers_linked] *)
+From ClapModel Require Complete.BuildLinked.
+Theorem C16_build_linked : forall c bin b,
+  BuildLinked.nb c = true -> bin <> [] -> build (set_bin_name c bin) = Some b -> c_bin b = Some bin /\ linked b.
+Proof. exact BuildLinked.build_linked. Qed.
+Print Assumptions C16_build_linked.
+
+Theorem C16_build_linked_nonvacuous :
+  BuildLinked.nb example_tree = true /\
+  exists b, build (set_bin_name example_tree [112%N]) = Some b /\ linked b /\ c_subs b <> [].
+Proof. exact BuildLinked.build_linked_nonvacuous. Qed.
+Print Assumptions C16_build_linked_nonvacuous.
+
+(** so, for such a user tree, the module [generate] writes declares every path of the built tree under
+    "bin n1 .. nk" -- the NAMES on the path, whichever aliases spelled it *)
+Theorem C16_nushell_generate_covers_named : forall c d bin,
+  BuildLinked.nb c = true -> bin <> [] -> exists b s,
+  build (set_bin_name c bin) = Some b /\ NushellModel.generate_nushell c d bin = Some s /\
+  forall ws ns n, reach b ws ns n ->
+    exists blk pre post, s = NushellProofs.nrender (pre ++ blk ++ post) /\
+                         NushellProofs.node_mentions (bin ++ join_with [32%N] ns) n (negb (is_nil ns)) blk.
+Proof. exact NushellProofs.generate_nushell_covers_named. Qed.
+Print Assumptions C16_nushell_generate_covers_named.
 (* ---- end nushell generator model ---- *)
